@@ -388,7 +388,8 @@ func (gr gradient) paint(dst backend.Canvas, node *svgNode, opacity Fl, dims dra
 			} else {
 				d = height / width
 			}
-			mt.LeftMultBy(matrix.Scaling(a, d))
+			// scale, then translate to the bounding box (as for radial gradients)
+			mt.RightMultBy(matrix.Scaling(a, d))
 		}
 		dx, dy := x2-x1, y2-y1
 		vectorLength := utils.Hypot(dx, dy)
